@@ -42,6 +42,17 @@ LValidRankIn(sorted, r) == (r + 1) \in DOMAIN sorted
 \* shorter[n+1] = LCountShorter(n) for n = 0..N+1   (1-based sequence)
 LLengthOfRank(shorter, r) == CHOOSE n \in 0..(Len(shorter) - 2) : shorter[n + 1] <= r /\ r < shorter[n + 2]
 
+\* ---- ranks of permutations too long to enumerate (lengths 9 to 12) ---------------------
+\* The permutations of length n that are lexicographically smaller than p split by the first
+\* position i at which they differ from p: there they carry one of the values below p[i] that p
+\* has not used before i, and behind it any arrangement of the n - i values still unused.  Counting
+\* the parts gives the rank without enumerating n! permutations.  (LibSanity_LexRank: equal to the
+\* counting definition LRankIn on every permutation of length <= 6, and PFact(m) is the number of
+\* arrangements of m values for m <= 7.)
+LUnusedBelowAt(p, i) == Cardinality({v \in 0..(p[i] - 1) : \A j \in 1..(i - 1) : p[j] # v})
+LRankBySplit(p) == LSeqSum([i \in DOMAIN p |-> LUnusedBelowAt(p, i) * PFact(Len(p) - i)])
+LOverallRankBySplit(p) == PSumFact(Len(p)) + LRankBySplit(p)
+
 \* ---- standardisation, second characterisation -----------------------------------
 \* r is order-isomorphic to s with ties of s read as increasing from left to right
 LIsStdOf(r, s) == /\ PIsPerm(r) /\ Len(r) = Len(s)
